@@ -139,7 +139,11 @@ func runC18(c *Ctx) Info {
 			if ok {
 				c.add("PARAMS-RO", ef.Fn, construct, report.Discharged, c.P.Pos(ef.Instr.Pos()), "guarded normalisation: "+why)
 				continue
-			} else if _, isStore := ef.Instr.(*ssa.Store); isStore {
+			} else if st, isStore := ef.Instr.(*ssa.Store); isStore {
+				if g := guardReadsCell(st); g != "" {
+					c.add("PARAMS-RO", ef.Fn, construct, report.OutOfScope, c.P.Pos(ef.Instr.Pos()), "store through a pointer that is not a field address of the parameters object (table of field pointers / accessor result); "+g+": whether the guard only fires on an invalid value is not decided")
+					continue
+				}
 				c.add("PARAMS-RO", ef.Fn, construct, report.Violated, c.P.Pos(ef.Instr.Pos()),
 					"store into the caller's parameters object that is not a guarded normalisation ("+why+"): it can execute on an already-valid object, so two calls sharing the object race", witnessPath(c, e, ef.Fn)...)
 				continue
@@ -787,4 +791,37 @@ func witnessPath(c *Ctx, e *Eff, fn *ssa.Function) []string {
 		}
 	}
 	return nil
+}
+
+// guardReadsCell: the store goes through a pointer value that is not a field address (a pointer taken
+// from a table of field pointers, the result of an accessor) and every path to it passes a branch
+// whose condition reads the same cell through the same pointer value: `if !valid(*chk.field) {
+// *chk.field = chk.fallback }`. That is the shape of a guarded normalisation; the witness of
+// PARAMS-RO is a store no test of the cell guards.
+func guardReadsCell(st *ssa.Store) string {
+	if _, isField := st.Addr.(*ssa.FieldAddr); isField {
+		return ""
+	}
+	fn := st.Parent()
+	pd := newPostDom(fn)
+	ctl := controllers(fn, pd, st.Block())
+	if len(ctl) == 0 {
+		return ""
+	}
+	for _, ct := range ctl {
+		cond := ifCond(ct.Block)
+		if cond == nil {
+			return ""
+		}
+		reads := false
+		for v := range backwardSlice(cond, 200) {
+			if ld, ok := v.(*ssa.UnOp); ok && ld.Op == token.MUL && (ld.X == st.Addr || sameBase(ld.X, st.Addr)) {
+				reads = true
+			}
+		}
+		if !reads {
+			return ""
+		}
+	}
+	return "the store is controlled by a test of the cell it writes"
 }
